@@ -300,6 +300,11 @@ def run(rep: Report, tier: str) -> None:
                                 f"DS_r carrying that frame (the interpreter copies the input dataset shallowly) next to the file holding the real datapoints"))
     rep.instance("R14.5", "reachable-from-loader", sample={"loader": loaders, "functions": n5})
     rep.floor("R14.5 functions reachable from the structure loader", n5, 5)
+    # ---- R14.6 the representation step converts every Time_Period value before the file is written (shared with C04 R04.12) ----
+    rep.rule("R14.6", "apply_time_period_representation (run on the table before COPY ... TO) selects every row in which ANY Time_Period column is not null: a skipped row keeps the "
+                      "internal form in the file while the in-memory result is formatted again in pandas")
+    from sa.checks.c04 import representation_row_filter as _rrf
+    _rrf(P, rep, "R14.6")
     rep.analysed = {"fetch_result_nodes": len(g.nodes)}
     rep.assumptions = ["DuckDB COPY (query) TO file writes exactly the rows/columns of the query",
                        "Dataset objects coming from semantic analysis carry data=None"]
